@@ -634,6 +634,13 @@ func indexInRange(pf *parserFacts, vw *FnView, x, idx ssa.Value, b *ssa.BasicBlo
 		}
 		return false, fmt.Sprintf("index %d but len(%s) is only known to be in %s", k.Int64(), xt, lb)
 	}
+	// the position of a named group of a constant pattern, kept in a package-level variable that only the initialiser sets
+	if k, name, ok := subexpIndexConst(pf.p, idx); ok {
+		if lb.hasLo && k >= 0 && k < lb.lo {
+			return true, fmt.Sprintf("len(%s) >= %d under the dominating conditions, index %d (the group named %q of the constant pattern)", accessName(xt), lb.lo, k, name)
+		}
+		return false, fmt.Sprintf("index %d (the group named %q of the pattern; -1: no such group) but len(%s) is only known to be in %s", k, name, xt, lb)
+	}
 	// range-loop index: idx < len(x) dominating, idx = phi+1 from -1 (rotated loop) or phi from 0
 	it := vw.Term(idx)
 	for _, a := range atoms {
@@ -738,6 +745,77 @@ func submatchLen(p *Program, x ssa.Value) (int, bool) {
 		return 0, false
 	}
 	return re.MaxCap() + 1, true
+}
+
+// subexpIndexConst: idx is the load of a package-level variable whose only assignment, in the package initialiser, is
+// re.SubexpIndex("name") on a package-level regexp with a constant pattern: the index that call returns (computed from
+// the pattern: the leftmost group of that name, -1 when there is none).
+func subexpIndexConst(p *Program, idx ssa.Value) (int64, string, bool) {
+	ld, ok := idx.(*ssa.UnOp)
+	if !ok || ld.Op != token.MUL {
+		return 0, "", false
+	}
+	g, ok := ld.X.(*ssa.Global)
+	if !ok || g.Pkg == nil {
+		return 0, "", false
+	}
+	var val ssa.Value
+	n := 0
+	for _, fn := range p.Funcs {
+		for _, b := range fn.Blocks {
+			for _, in := range b.Instrs {
+				st, ok := in.(*ssa.Store)
+				if !ok || globalRoot(st.Addr) != g {
+					continue
+				}
+				if !isInitFunc(fn) || fn.Pkg != g.Pkg {
+					return 0, "", false
+				}
+				n++
+				val = st.Val
+			}
+		}
+	}
+	if n != 1 {
+		return 0, "", false
+	}
+	call, ok := val.(*ssa.Call)
+	if !ok {
+		return 0, "", false
+	}
+	callee := call.Call.StaticCallee()
+	if callee == nil || callee.Name() != "SubexpIndex" || callee.Pkg == nil || callee.Pkg.Pkg.Path() != "regexp" || len(call.Call.Args) != 2 {
+		return 0, "", false
+	}
+	rl, ok := call.Call.Args[0].(*ssa.UnOp)
+	if !ok {
+		return 0, "", false
+	}
+	rg, ok := rl.X.(*ssa.Global)
+	if !ok || rg.Pkg == nil {
+		return 0, "", false
+	}
+	nk, ok := call.Call.Args[1].(*ssa.Const)
+	if !ok || nk.Value == nil || nk.Value.Kind() != constant.String {
+		return 0, "", false
+	}
+	name := constant.StringVal(nk.Value)
+	pat, _, ok := p.globalRegexPattern(rg.Pkg.Pkg.Path(), rg.Name())
+	if !ok {
+		return 0, "", false
+	}
+	re, err := syntax.Parse(pat, syntax.Perl)
+	if err != nil {
+		return 0, "", false
+	}
+	if name != "" {
+		for i, cn := range re.CapNames() {
+			if cn == name {
+				return int64(i), name, true
+			}
+		}
+	}
+	return -1, name, true
 }
 
 // ruleDecoderGuard: R9.9 the third-party TOML decoder is only called under a recover guard that turns a
